@@ -12,7 +12,8 @@ import (
 	"time"
 )
 
-const verifRoot = "/verif"
+// verifRoot is the directory that holds spec/, evidence/, replay/, known_findings.json (bin/check sets VERIF_ROOT).
+var verifRoot = envOr("VERIF_ROOT", "/verif")
 
 // Ctx carries everything one check run accumulates: coverage counters for the
 // evidence file, violations, known findings that were hit.
